@@ -120,6 +120,11 @@ def t_timed_post(kind, may_cancel=False):
             # ---- now the thread body itself, on the virtual clock, assuming nobody else clears this source's flag
             c.pyghost['runner'] = {'d0': d_exp, 'period': p.e, 'kind': sval(c.to_ref(rd('queue_type'))), 'event': e.e,
                                    'n': n_exp, 'may_cancel': may_cancel, 'run_event': rd('task_run_event').e}
+            if may_cancel and c.choose(2, 'cancelled-before-the-timer-thread-first-runs'):
+                # post_fifo/post_lifo has returned the id: another thread may cancel the source before the new
+                # thread gets its first time slice (thread entry is a scheduling point like a sleep)
+                c.hset(rd('task_run_event'), 'flag', z3.BoolVal(False))
+                g['g_cancelled'] = z3.BoolVal(True)
             try:
                 it.call_func(tgt, list(args), {})
                 ended = True
